@@ -66,6 +66,7 @@ class Context:
         self.extra: Dict[str, Any] = {}
         self.samples: List[Any] = []
         self.lines: List[str] = []
+        self.shortfalls: List[str] = []
 
     # ------------------------------------------------------------ printing
     def out(self, line: str) -> None:
@@ -113,7 +114,9 @@ class Context:
     def floor(self, rule: str, minimum: int, what: str = "instances") -> None:
         n = len(self.instances.get(rule, []))
         if n < minimum:
-            raise AnalysisError(
+            # decided in finish(): with definite violations present the verdict stands
+            # (code was removed, and its absence was reported); otherwise analysis error
+            self.shortfalls.append(
                 f"rule {rule}: matched {n} {what}, floor is {minimum} -- the rule no "
                 f"longer sees the code it was written for"
             )
@@ -139,6 +142,13 @@ class Context:
             else:
                 fresh.append(v)
         replay_path = None
+        if self.shortfalls and not fresh:
+            for sf in self.shortfalls:
+                self.out(f"ANALYSIS-ERROR property={self.prop} {sf}")
+            self.write_evidence(0, len(self.violations))
+            return 2
+        for sf in self.shortfalls:
+            self.out(f"NOTE floor shortfall next to reported violations: {sf}")
         if fresh:
             os.makedirs(REPLAY_DIR, exist_ok=True)
             dig = hashlib.sha256(
